@@ -4,19 +4,24 @@ D1 ordering rules (sorted keys, declaration order, product order), D2 rejection 
 what they protect, D3 the cap is tested before anything of product size is materialised,
 D4 error classes.
 
-Locals are identified by role (what defines them), literals may live in module-level constants,
-guards may live in a helper that raises (one level), loops may be comprehensions.
+Everything is decided on the *normal form* of the three anchored functions (private helpers inlined,
+module constants substituted, if/else merged, accumulate loops turned into comprehensions, pure
+single-assignment locals substituted).  Locals are identified by *provenance* (reaching definitions:
+"derived from block.context", "first item of _load_and_process_source(...)", "an expansion of the
+context mapping"), never by name.  A guard is a branch of the CFG: one edge guarantees the protected
+condition (interpreting not/and/or), every path over the other edge ends in `raise <config error>`;
+which edge is the `if` body does not matter.  What is protected must be unreachable without passing
+the guaranteeing edge.
 """
 from __future__ import annotations
 
 import ast
-from typing import Dict, List, Optional, Set, Tuple
+from typing import Callable, Dict, FrozenSet, Iterator, List, Optional, Sequence, Set, Tuple
 
-from ..cfg import CFG, edges_guaranteeing, returns_only_through
+from ..cfg import CFG, edges_guaranteeing, reaching_defs
 from ..engine import (
     AnalysisError,
     FuncNode,
-    Module,
     Repo,
     ancestors,
     assigned_value,
@@ -30,16 +35,31 @@ from ..engine import (
     terminates_in_raise,
     walk_no_nested,
 )
-from ..pat import find, find1, match, name_of
+from ..normal import nfunc
+from ..pat import find, match
 from ..report import Report
 
 RS = "semantiva/execution/run_space.py"
 ERS = "expand_run_space"
+EE = "_expand_entries"
+LPS = "_load_and_process_source"
+LSF = "_load_source_file"
+KEEP = (EE, LPS, LSF)
 CONFIG_ERRORS = ("ConfigurationError", "PipelineConfigurationError")
+CAP_ERROR = "RunSpaceMaxRunsExceededError"
+COMPS = (ast.ListComp, ast.SetComp, ast.GeneratorExp, ast.DictComp)
 
 
 def _u(e: Optional[ast.AST]) -> str:
     return ast.unparse(e) if e is not None else ""
+
+
+def _last(name: Optional[str]) -> Optional[str]:
+    return name.split(".")[-1] if name else name
+
+
+def names_in(e: Optional[ast.AST]) -> Set[str]:
+    return {x.id for x in ast.walk(e) if isinstance(x, ast.Name)} if e is not None else set()
 
 
 def _raises(body: List[ast.stmt]) -> Optional[str]:
@@ -52,305 +72,1036 @@ def _raises(body: List[ast.stmt]) -> Optional[str]:
     return "?"
 
 
-def module_consts(mod: Module) -> Dict[str, object]:
-    out = {}
-    for st in mod.tree.body:
-        if isinstance(st, (ast.Assign, ast.AnnAssign)) and isinstance(getattr(st, "value", None), ast.Constant):
-            t = st.targets[0] if isinstance(st, ast.Assign) else st.target
-            if isinstance(t, ast.Name):
-                out[t.id] = st.value.value
+def call_arg(c: ast.Call, idx: int, name: Optional[str]) -> Optional[ast.AST]:
+    """Argument of *c* given positionally at *idx* or by keyword *name*."""
+    if len(c.args) > idx and not any(isinstance(a, ast.Starred) for a in c.args[: idx + 1]):
+        return c.args[idx]
+    return kwarg(c, name) if name else None
+
+
+def strip_keyset(e: ast.AST) -> ast.AST:
+    """Peel wrappers that keep the key set / element order of a mapping or key collection."""
+    while True:
+        if isinstance(e, ast.Call) and not e.keywords and len(e.args) == 1 and isinstance(e.func, ast.Name) and e.func.id in ("set", "list", "dict", "tuple", "frozenset", "iter"):
+            e = e.args[0]
+        elif isinstance(e, ast.Call) and not e.args and not e.keywords and isinstance(e.func, ast.Attribute) and e.func.attr in ("keys", "items", "copy"):
+            e = e.func.value
+        elif isinstance(e, ast.Dict) and len(e.keys) == 1 and e.keys[0] is None:
+            e = e.values[0]
+        else:
+            return e
+
+
+def is_empty_container(e: ast.AST) -> bool:
+    if isinstance(e, (ast.List, ast.Set, ast.Tuple)) and not e.elts:
+        return True
+    if isinstance(e, ast.Dict) and not e.keys:
+        return True
+    return isinstance(e, ast.Call) and not e.args and not e.keywords and isinstance(e.func, ast.Name) and e.func.id in ("set", "list", "dict", "tuple", "frozenset")
+
+
+def is_neutral(v: Optional[ast.AST]) -> bool:
+    return isinstance(v, ast.List) and len(v.elts) == 1 and isinstance(v.elts[0], ast.Dict) and not v.elts[0].keys
+
+
+def iterations(root: ast.AST) -> Iterator[Tuple[ast.AST, ast.AST, ast.AST, List[ast.AST]]]:
+    """(construct, iterable, target, nodes evaluated per element) for every `for` statement and every
+    comprehension generator under *root*: a loop and the comprehension it can be rewritten into look alike."""
+    for n in ast.walk(root):
+        if isinstance(n, ast.For):
+            yield n, n.iter, n.target, list(n.body)
+        elif isinstance(n, COMPS):
+            res = [n.key, n.value] if isinstance(n, ast.DictComp) else [n.elt]
+            for i, gen in enumerate(n.generators):
+                yield n, gen.iter, gen.target, list(gen.ifs) + [x for g in n.generators[i + 1:] for x in [g.iter] + list(g.ifs)] + res
+
+
+def found(nodes: Sequence[ast.AST], pattern: str) -> List[Tuple[ast.AST, dict]]:
+    out = []
+    for b in nodes:
+        out.extend(find(b, pattern, nested=True))
     return out
 
 
-def const_of(e: Optional[ast.AST], consts: Dict[str, object]):
-    if isinstance(e, ast.Constant):
-        return e.value
-    if isinstance(e, ast.Name) and e.id in consts:
-        return consts[e.id]
-    return None
+def cmp_parts(e: ast.AST) -> Optional[Tuple[ast.AST, type, ast.AST]]:
+    """Single comparison as (left, op type, right) with an integer constant moved to the right."""
+    if not (isinstance(e, ast.Compare) and len(e.ops) == 1):
+        return None
+    l, op, r = e.left, type(e.ops[0]), e.comparators[0]
+    flip = {ast.Lt: ast.Gt, ast.Gt: ast.Lt, ast.LtE: ast.GtE, ast.GtE: ast.LtE, ast.Eq: ast.Eq, ast.NotEq: ast.NotEq}
+    if isinstance(l, ast.Constant) and not isinstance(r, ast.Constant) and op in flip:
+        l, op, r = r, flip[op], l
+    return l, op, r
 
 
-def defs_of(fn: ast.AST, e: Optional[ast.AST]) -> List[ast.AST]:
-    if isinstance(e, ast.Name):
-        return assigned_value(fn, e.id) or [e]
-    return [e] if e is not None else []
+def count_cmp(e: ast.AST) -> Optional[Tuple[ast.AST, str]]:
+    """`len(X) <op> n` classified: (X, 'many') for >1 / >=2 / !=1, (X, 'atmost1') for <=1 / <2 / ==1,
+    (X, 'some') for >0 / >=1 / !=0, (X, 'none') for ==0 / <1 / <=0."""
+    p = cmp_parts(e)
+    if p is None:
+        return None
+    l, op, r = p
+    if not (isinstance(l, ast.Call) and isinstance(l.func, ast.Name) and l.func.id == "len" and len(l.args) == 1 and isinstance(r, ast.Constant) and isinstance(r.value, int) and not isinstance(r.value, bool)):
+        return None
+    n = r.value
+    table = {
+        (ast.Gt, 1): "many", (ast.GtE, 2): "many", (ast.NotEq, 1): "many",
+        (ast.LtE, 1): "atmost1", (ast.Lt, 2): "atmost1", (ast.Eq, 1): "atmost1",
+        (ast.Gt, 0): "some", (ast.GtE, 1): "some", (ast.NotEq, 0): "some",
+        (ast.Eq, 0): "none", (ast.Lt, 1): "none", (ast.LtE, 0): "none",
+    }
+    kind = table.get((op, n))
+    return (l.args[0], kind) if kind else None
 
 
-def names_in(e: Optional[ast.AST]) -> Set[str]:
-    return {x.id for x in ast.walk(e) if isinstance(x, ast.Name)} if e is not None else set()
+class Flow:
+    """CFG of one (normal-form) function with reaching-definition look-ups and guard queries."""
+
+    def __init__(self, fn: ast.AST):
+        self.fn = fn
+        self.g = CFG(fn, may_raise=lambda p: set())
+        self._rd: Dict[Tuple[str, int], List[Tuple]] = {}
+
+    def nid(self, node: ast.AST) -> int:
+        cur = node if isinstance(node, ast.stmt) else stmt_of(node)
+        while True:
+            ids = self.g.nodes_for(cur)
+            if ids:
+                return ids[0]
+            nxt = None
+            for a in ancestors(cur):
+                if isinstance(a, ast.stmt):
+                    nxt = a
+                    break
+            if nxt is None or nxt is self.fn:
+                raise AnalysisError(f"{getattr(self.fn, 'name', '?')}: no control-flow node for `{norm(cur)[:60]}`")
+            cur = nxt
+
+    def defs(self, name: str, at: ast.AST) -> List[Tuple]:
+        """Reaching definitions of *name* at the statement of *at*: ('val', expr, stmt) |
+        ('item', expr, index, stmt) | ('iter', for-stmt) | ('aug', stmt) | ('other', stmt)."""
+        use = self.nid(at)
+        key = (name, use)
+        if key in self._rd:
+            return self._rd[key]
+        out: List[Tuple] = []
+        for d in reaching_defs(self.g, name, use):
+            a = d.ast
+            if isinstance(a, ast.Assign) and any(isinstance(t, ast.Name) and t.id == name for t in a.targets):
+                out.append(("val", a.value, a))
+            elif isinstance(a, ast.AnnAssign) and isinstance(a.target, ast.Name) and a.value is not None:
+                out.append(("val", a.value, a))
+            elif isinstance(a, ast.Assign):
+                hit = False
+                for t in a.targets:
+                    if isinstance(t, (ast.Tuple, ast.List)):
+                        for i, el in enumerate(t.elts):
+                            if isinstance(el, ast.Name) and el.id == name:
+                                out.append(("item", a.value, i, a))
+                                hit = True
+                if not hit:
+                    out.append(("other", a))
+            elif isinstance(a, ast.For):
+                out.append(("iter", a))
+            elif isinstance(a, ast.AugAssign):
+                out.append(("aug", a))
+            else:
+                out.append(("other", a))
+        self._rd[key] = out
+        return out
+
+    def values(self, e: ast.AST, at: ast.AST, depth: int = 4) -> List[Tuple[ast.AST, ast.AST]]:
+        """(expression, statement it is evaluated in) pairs *e* can stand for: a local is followed through its
+        reaching plain assignments (tuple items through tuple displays); anything else is returned as is."""
+        if not isinstance(e, ast.Name) or depth <= 0:
+            return [(e, at)]
+        ds = self.defs(e.id, at)
+        if not ds:
+            return [(e, at)]
+        out: List[Tuple[ast.AST, ast.AST]] = []
+        for d in ds:
+            if d[0] == "val":
+                if isinstance(d[1], ast.Name) and d[1].id == e.id:
+                    continue
+                out.extend(self.values(d[1], d[2], depth - 1))
+            elif d[0] == "item":
+                got = False
+                for v, st in self.values(d[1], d[3], depth - 1):
+                    if isinstance(v, (ast.Tuple, ast.List)) and len(v.elts) > d[2] and not any(isinstance(x, ast.Starred) for x in v.elts):
+                        out.extend(self.values(v.elts[d[2]], st, depth - 1))
+                        got = True
+                if not got:
+                    out.append((e, at))
+            else:
+                out.append((e, at))
+        return out
+
+    def raise_only(self, nid: int, label: str) -> Optional[Set[str]]:
+        """Exception class names raised when edge (*nid*, *label*) is taken, provided no path over that edge
+        returns normally; None otherwise."""
+        targets = [t for t, lab in self.g.succ[nid] if lab == label]
+        if not targets:
+            return None
+        seen = self.g.reach(targets)
+        if self.g.ret_exit in seen:
+            return None
+        out: Set[str] = set()
+        for i in seen:
+            a = self.g.nodes[i].ast
+            if isinstance(a, ast.Raise) and self.g.nodes[i].kind == "stmt":
+                if a.exc is None:
+                    out.add("?")
+                    continue
+                t = a.exc.func if isinstance(a.exc, ast.Call) else a.exc
+                nm = dotted_name(t)
+                if isinstance(t, ast.Name):
+                    vs = [v for v, _s in self.values(t, a)]
+                    if vs and all(isinstance(v, ast.Call) for v in vs):
+                        for v in vs:
+                            out.add(_last(dotted_name(v.func)) or "?")
+                        continue
+                out.add(_last(nm) or "?")
+        return out
+
+    def raise_nodes(self, nid: int, label: str) -> List[ast.Raise]:
+        targets = [t for t, lab in self.g.succ[nid] if lab == label]
+        seen = self.g.reach(targets)
+        return [self.g.nodes[i].ast for i in seen if isinstance(self.g.nodes[i].ast, ast.Raise) and self.g.nodes[i].kind == "stmt"]
+
+    def lift(self, atom: Callable[[ast.AST], Optional[bool]]) -> Callable[[ast.AST], Optional[bool]]:
+        """*atom* extended to a local that names a condition (`flag = <test>` ... `if flag:`): the local stands
+        for the test it was assigned (single reaching definition)."""
+        def lifted(e: ast.AST, _depth: List[int] = [0]) -> Optional[bool]:
+            r = atom(e)
+            if r is not None or not isinstance(e, ast.Name) or _depth[0] > 3:
+                return r
+            vals = self.values(e, stmt_of(e))
+            if len(vals) == 1 and isinstance(vals[0][0], (ast.Compare, ast.BoolOp, ast.UnaryOp, ast.Call)):
+                _depth[0] += 1
+                try:
+                    eg = edges_guaranteeing(vals[0][0], lifted)
+                finally:
+                    _depth[0] -= 1
+                if eg == {"T"}:
+                    return True
+                if eg == {"F"}:
+                    return False
+            return None
+        return lifted
+
+    def edges(self, test: ast.AST, atom: Callable[[ast.AST], Optional[bool]]) -> Set[str]:
+        return edges_guaranteeing(test, self.lift(atom))
+
+    def guards(self, atom: Callable[[ast.AST], Optional[bool]]) -> List[Tuple[int, str, str, Optional[Set[str]]]]:
+        """(if-node, edge guaranteeing the atom, the other edge, classes raised over the other edge or None)."""
+        out = []
+        for n in self.g.nodes:
+            if n.kind == "if" and n.part is not None:
+                ok_edges = self.edges(n.part, atom)
+                if len(ok_edges) == 1:
+                    ok = next(iter(ok_edges))
+                    other = "F" if ok == "T" else "T"
+                    out.append((n.id, ok, other, self.raise_only(n.id, other)))
+        return out
+
+    def rejecting(self, atom: Callable[[ast.AST], Optional[bool]], classes: Sequence[str] = CONFIG_ERRORS) -> List[Tuple[int, str]]:
+        """Guards on *atom* whose failing edge always raises one of *classes*: (node, passing edge)."""
+        return [(nid, ok) for nid, ok, _other, rs in self.guards(atom) if rs and rs <= set(classes)]
+
+    def passes_only_through(self, node_ids: Sequence[int], edges: Sequence[Tuple[int, str]]) -> Tuple[bool, List[str]]:
+        """No path entry -> n -> normal return (n in *node_ids*) avoids all of *edges*."""
+        blocked = set(edges)
+        seen = self.g.reach([self.g.entry], blocked_edges=blocked)
+        for n in node_ids:
+            if n in seen:
+                onward = self.g.reach([n], blocked_edges=blocked)
+                if self.g.ret_exit in onward:
+                    return False, self.g.path_to(seen, n)[-6:]
+        return True, []
+
+    def dominated(self, node_ids: Sequence[int], edges: Sequence[Tuple[int, str]]) -> Tuple[bool, List[str]]:
+        """Every n in *node_ids* is unreachable from the entry once *edges* are removed."""
+        seen = self.g.reach([self.g.entry], blocked_edges=set(edges))
+        for n in node_ids:
+            if n in seen:
+                return False, self.g.path_to(seen, n)[-6:]
+        return True, []
 
 
 def run(repo: Repo, R: Report) -> None:
     mod = repo.module(RS)
-    consts = module_consts(mod)
-    fn = repo.func(RS, ERS)
-    ee = repo.func(RS, "_expand_entries")
-    ls = repo.func(RS, "_load_and_process_source")
+    opts = dict(keep=KEEP, copyprop="all", loops=True)
+    fn = nfunc(repo, RS, ERS, **opts)
+    ee = nfunc(repo, RS, EE, **opts)
+    ls = nfunc(repo, RS, LPS, **opts)
+    F, FE, FL = Flow(fn), Flow(ee), Flow(ls)
     spec = fn.args.args[0].arg
+    ee_params = [a.arg for a in ee.args.args]
+    ls_params = [a.arg for a in ls.args.args]
+    if len(ee_params) < 2 or not ls_params:
+        raise AnalysisError("run_space: _expand_entries(entries, mode) / _load_and_process_source(src, ..) signatures not recognised")
     R.assume(
         "itertools.product enumerates with the rightmost iterable varying fastest (stdlib contract)",
         "csv/json/yaml parsers return the file's rows in file order",
     )
     R.undecided("content of parsed source files and scalar coercion values; memory actually used (only *where* product-sized structures are built is decided)")
 
+    def is_product(c: ast.AST) -> bool:
+        return isinstance(c, ast.Call) and call_name(c) in ("itertools.product", "product")
+
     # ------------------------------------------------------------------ D1 ordering
     r_ord = R.rule("C08-D1-ordering", "keys inside a block are taken in sorted order (one definition feeding both modes), blocks in declaration order, products via itertools.product over them in that order; context varies slower than source inside a combinatorial block", 7)
-    entries = ee.args.args[0].arg
-    sk = find(ee, f"_K_ = sorted({entries})")
-    any_sorted = [c for c in calls_in(ee) if call_attr(c) == "sorted"]
-    ok = len(sk) == 1 and len(any_sorted) == 1
-    K = name_of(sk[0][1], "_K_") if sk else "__missing__"
-    R.check(ok, r_ord, RS, "_expand_entries", "keys = sorted(entries)", "keys are not iterated in plain sorted order (custom key function, reversed, or mapping order)", ee.lineno)
-    prods = [c for c in calls_in(ee) if call_name(c) in ("itertools.product", "product")]
+    entries = ee_params[0]
+
+    def sorted_keys(e: ast.AST, at: ast.AST) -> bool:
+        """*e* is the plain sorted key list of the entries mapping."""
+        vals = FE.values(e, at)
+        return bool(vals) and all(
+            isinstance(v, ast.Call) and isinstance(v.func, ast.Name) and v.func.id == "sorted" and not v.keywords and len(v.args) == 1 and _u(strip_keyset(v.args[0])) == entries
+            for v, _s in vals
+        )
+
+    def value_lists(e: ast.AST, at: ast.AST) -> Optional[ast.AST]:
+        """*e* is `[entries[k] for k in K]` (list / generator / tuple(...) of it): returns K."""
+        ks = []
+        for v, _s in FE.values(e, at):
+            v = strip_keyset(v)
+            m = match(f"[{entries}[_k_] for _k_ in _K_]", v) or match(f"({entries}[_k_] for _k_ in _K_)", v)
+            if not m:
+                m = match(f"map({entries}.get, _K_)", v) or match(f"map({entries}.__getitem__, _K_)", v)
+            if not m:
+                return None
+            ks.append(m["_K_"])
+        return ks[0] if ks and all(_u(k) == _u(ks[0]) for k in ks) else None
+
+    key_orders: List[Tuple[ast.AST, ast.AST]] = []  # key iterables feeding the two expansions
+    prods = [c for c in ast.walk(ee) if is_product(c)]
     ok = False
-    combo_src = None
-    if len(prods) == 1 and len(prods[0].args) == 1 and isinstance(prods[0].args[0], ast.Starred):
-        for v in defs_of(ee, prods[0].args[0].value):
-            if match(f"[{entries}[_k_] for _k_ in {K}]", v):
-                ok = True
-    R.check(ok, r_ord, RS, "_expand_entries", "itertools.product(*[entries[k] for k in keys])", "the product is not taken over the value lists in sorted-key order", prods[0].lineno if prods else ee.lineno)
-    ok = bool(find(ee, f"dict(zip({K}, _C_))", nested=True))
-    R.check(ok, r_ord, RS, "_expand_entries", "dict(zip(keys, combo))", "product combinations are not paired with the sorted keys", ee.lineno)
-    ok = False
-    for lc in [n for n in ast.walk(ee) if isinstance(n, ast.ListComp)]:
-        m = match(f"[{{_k_: {entries}[_k_][_i_] for _k_ in {K}}} for _i_ in range(_N_)]", lc)
-        if m:
+    if len(prods) == 1 and len(prods[0].args) == 1 and isinstance(prods[0].args[0], ast.Starred) and not prods[0].keywords:
+        k = value_lists(prods[0].args[0].value, prods[0])
+        if k is not None:
             ok = True
-    if not ok:
-        # explicit loop form
-        for lp in [n for n in ast.walk(ee) if isinstance(n, ast.For)]:
-            if match("range(_N_)", lp.iter) and isinstance(lp.target, ast.Name) and find(lp, f"{{_k_: {entries}[_k_][{lp.target.id}] for _k_ in {K}}}", nested=True):
+            key_orders.append((k, prods[0]))
+    R.check(ok, r_ord, RS, EE, "itertools.product(*[entries[k] for k in keys])", "the product is not taken over the value lists in sorted-key order", prods[0].lineno if prods else ee.lineno)
+    ok = False
+    for cons, it, tgt, body in iterations(ee):
+        if any(is_product(x) for v, _s in FE.values(it, cons) for x in [v]) and isinstance(tgt, ast.Name):
+            for pat in (f"dict(zip(_K_, {tgt.id}))", f"{{_a_: _b_ for (_a_, _b_) in zip(_K_, {tgt.id})}}"):
+                for node, m in found(body, pat):
+                    ok = True
+                    key_orders.append((m["_K_"], node))
+    R.check(ok, r_ord, RS, EE, "dict(zip(keys, combo))", "product combinations are not paired with the sorted keys", ee.lineno)
+    ok = False
+    positional_sites: List[ast.AST] = []
+    for cons, it, tgt, body in iterations(ee):
+        if match("range(_N_)", it) and isinstance(tgt, ast.Name):
+            for node, m in found(body, f"{{_k_: {entries}[_k_][{tgt.id}] for _k_ in _K_}}"):
                 ok = True
-    R.check(ok, r_ord, RS, "_expand_entries", "[{k: entries[k][i] for k in keys} for i in range(size)]", "by_position does not align positions 0..size-1 over the sorted keys", ee.lineno)
-    loops = [n for n in walk_no_nested(fn) if isinstance(n, ast.For) and (match(f"{spec}.blocks", n.iter) or match(f"enumerate({spec}.blocks)", n.iter))]
-    other = [n for n in walk_no_nested(fn) if isinstance(n, ast.For) and f"{spec}.blocks" in _u(n.iter) and n not in loops]
-    R.check(len(loops) == 1 and not other, r_ord, RS, ERS, norm(loops[0]) if loops else "for block in spec.blocks", "blocks are not processed in declaration order", loops[0].lineno if loops else fn.lineno)
-    bl = loops[0] if loops else (other[0] if other else None)
-    top = [c for c in ast.walk(fn) if isinstance(c, ast.Call) and call_name(c) in ("itertools.product", "product")]
+                key_orders.append((m["_K_"], node))
+                positional_sites.append(cons)
+        m0 = match("zip(*_V_)", it)
+        if m0 and isinstance(tgt, ast.Name):
+            k = value_lists(m0["_V_"], cons)
+            for node, m in found(body, f"dict(zip(_K_, {tgt.id}))"):
+                if k is not None:
+                    ok = True
+                    key_orders.extend([(k, cons), (m["_K_"], node)])
+                    positional_sites.append(cons)
+    R.check(ok, r_ord, RS, EE, "[{k: entries[k][i] for k in keys} for i in range(size)]", "by_position does not align positions 0..size-1 over the sorted keys", ee.lineno)
+    bad_keys = [(k, at) for k, at in key_orders if not sorted_keys(k, at)]
+    R.check(bool(key_orders) and not bad_keys, r_ord, RS, EE, "keys = sorted(entries)", "keys are not iterated in plain sorted order (custom key function, reversed, or mapping order)", bad_keys[0][1].lineno if bad_keys else ee.lineno)
+
+    # top level of expand_run_space: the list of per-block run lists, the loop filling it
+    top = [c for c in ast.walk(fn) if is_product(c) and len(c.args) == 1 and isinstance(c.args[0], ast.Starred)]
     ALL = None
-    if len(top) == 1 and len(top[0].args) == 1 and isinstance(top[0].args[0], ast.Starred) and isinstance(top[0].args[0].value, ast.Name):
+    if len(top) == 1 and isinstance(top[0].args[0].value, ast.Name):
         ALL = top[0].args[0].value.id
     R.check(ALL is not None, r_ord, RS, ERS, "itertools.product(*all_block_runs)", "top-level combination is not the product of the block run lists in declaration order", top[0].lineno if top else fn.lineno)
-    apps = [c for c in ast.walk(fn) if isinstance(c, ast.Call) and call_attr(c) == "append" and dotted_name(c.func.value) == ALL]
-    ok = len(apps) == 1 and bl is not None and any(a is bl for a in ancestors(apps[0])) and isinstance(apps[0].args[0], ast.Name)
-    BR = apps[0].args[0].id if ok else "__missing__"
-    R.check(ok, r_ord, RS, ERS, "all_block_runs.append(block_runs)", "block results are not collected in declaration order", apps[0].lineno if apps else fn.lineno)
-    # roles inside the block loop
-    block = None
-    if bl is not None:
-        block = bl.target.elts[-1].id if isinstance(bl.target, ast.Tuple) else getattr(bl.target, "id", None)
-    ctx_entries = src_entries = None
-    if bl is not None and block:
-        m = find1(bl, f"_CE_ = {{_k_: list(_v_) for (_k_, _v_) in {block}.context.items()}}") or find1(bl, f"_CE_ = _ANY_") if False else find1(bl, f"_CE_ = {{_k_: list(_v_) for (_k_, _v_) in {block}.context.items()}}")
+    apps: List[Tuple[ast.AST, ast.AST]] = []  # (site, appended expression)
+    for n in ast.walk(fn):
+        if isinstance(n, ast.Call) and call_attr(n) == "append" and isinstance(n.func, ast.Attribute) and dotted_name(n.func.value) == ALL and len(n.args) == 1:
+            apps.append((n, n.args[0]))
+        if isinstance(n, ast.AugAssign) and isinstance(n.op, ast.Add) and dotted_name(n.target) == ALL and isinstance(n.value, ast.List) and len(n.value.elts) == 1:
+            apps.append((n, n.value.elts[0]))
+
+    def block_loop_of(node: ast.AST) -> Optional[ast.For]:
+        loops = [a for a in ancestors(node) if isinstance(a, ast.For)]
+        return loops[-1] if loops else None  # outermost enclosing loop
+
+    def declared_block(lp: ast.For) -> Optional[str]:
+        """Source text of "the current block" when *lp* walks spec.blocks in declaration order, else None."""
+        it2 = lp.iter
+        m = match("enumerate(_B_)", it2) or match("enumerate(_B_, 0)", it2) or match("enumerate(_B_, start=0)", it2)
+        tgt = lp.target
         if m:
-            ctx_entries = name_of(m[1], "_CE_")
-        m = find1(bl, f"(_SE_, _SM_) = _load_and_process_source({block}.source, _B_)")
-        if m:
-            src_entries = name_of(m[1], "_SE_")
-    if ctx_entries is None or src_entries is None:
-        raise AnalysisError("expand_run_space: per-block context/source entry mappings not recognised")
-
-    def expansions(entries_name: str) -> List[Tuple[ast.Call, Optional[str]]]:
-        out = []
-        for c in ast.walk(bl):
-            if isinstance(c, ast.Call) and call_attr(c) == "_expand_entries" and len(c.args) == 2 and dotted_name(c.args[0]) == entries_name:
-                tgt = None
-                st = stmt_of(c)
-                if isinstance(st, ast.Assign) and isinstance(st.targets[0], ast.Name):
-                    tgt = st.targets[0].id
-                out.append((c, tgt))
-        return out
-
-    ctx_exp, src_exp = expansions(ctx_entries), expansions(src_entries)
-    ctx_runs = {t for _c, t in ctx_exp if t}
-    src_runs = {t for _c, t in src_exp if t}
-
-    def block_mode_of(node: ast.AST) -> Optional[str]:
-        for a in ancestors(node):
-            if isinstance(a, ast.If):
-                m = match(f"{block}.mode == _M_", a.test)
-                if m and any(node is x for s in a.body for x in ast.walk(s)):
-                    v = const_of(m["_M_"], consts)
-                    if isinstance(v, str):
-                        return v
+            it2 = m["_B_"]
+            tgt = tgt.elts[-1] if isinstance(tgt, ast.Tuple) and len(tgt.elts) == 2 else None
+        while isinstance(it2, ast.Call) and isinstance(it2.func, ast.Name) and it2.func.id in ("list", "tuple", "iter") and len(it2.args) == 1 and not it2.keywords:
+            it2 = it2.args[0]
+        if _u(it2) == f"{spec}.blocks":
+            return tgt.id if isinstance(tgt, ast.Name) else None
+        if not m and _u(it2) == f"range(len({spec}.blocks))" and isinstance(tgt, ast.Name):
+            sub = f"{spec}.blocks[{tgt.id}]"
+            named = [st.targets[0].id for st in lp.body if isinstance(st, ast.Assign) and len(st.targets) == 1 and isinstance(st.targets[0], ast.Name) and _u(st.value) == sub]
+            return named[0] if named else sub
         return None
 
-    # ctx outer / src inner
-    combos = []  # (site node, outer iter name, inner iter name)
-    for n in ast.walk(bl):
-        if isinstance(n, ast.For) and isinstance(n.iter, ast.Name):
-            for m in n.body:
-                if isinstance(m, ast.For) and isinstance(m.iter, ast.Name) and any(call_attr(c) == "append" for c in calls_in(m)):
-                    combos.append((n, n.iter.id, m.iter.id))
-        if isinstance(n, (ast.ListComp,)) and len(n.generators) == 2 and all(isinstance(g.iter, ast.Name) for g in n.generators):
-            combos.append((n, n.generators[0].iter.id, n.generators[1].iter.id))
-    cs = [c for c in combos if {c[1], c[2]} == (ctx_runs | src_runs) and len(ctx_runs) == 1 and len(src_runs) == 1]
-    ok = len(cs) == 1 and cs[0][1] in ctx_runs and cs[0][2] in src_runs
-    R.check(ok, r_ord, RS, ERS, "block combination: context outer, source inner", "inside a combinatorial block the source no longer varies fastest (or context/source are not combined pairwise)", cs[0][0].lineno if cs else fn.lineno)
+    bl = block_loop_of(apps[0][0]) if len(apps) == 1 else None
+    block_loops = [n for n in walk_no_nested(fn) if isinstance(n, ast.For) and f"{spec}.blocks" in _u(n.iter)]
+    if bl is None and block_loops:
+        bl = block_loops[0]
+    ok = bl is not None and declared_block(bl) is not None and all(declared_block(n) is not None for n in block_loops)
+    R.check(ok, r_ord, RS, ERS, norm(bl) if ok else "for block in spec.blocks", "blocks are not processed in declaration order", bl.lineno if bl is not None else fn.lineno)
+    ok = len(apps) == 1 and bl is not None and block_loop_of(apps[0][0]) is bl
+    BR = apps[0][1].id if ok and isinstance(apps[0][1], ast.Name) else "__missing__"
+    R.check(ok, r_ord, RS, ERS, "all_block_runs.append(block_runs)", "block results are not collected in declaration order", apps[0][0].lineno if apps else fn.lineno)
+    if bl is None:
+        raise AnalysisError("expand_run_space: the loop over spec.blocks was not found")
+    block = declared_block(bl)
+    if not block:
+        # the order is wrong (reported above); the loop variable is still needed to recognise the roles
+        block = bl.target.elts[-1].id if isinstance(bl.target, ast.Tuple) and isinstance(bl.target.elts[-1], ast.Name) else getattr(bl.target, "id", None)
+    if not block:
+        raise AnalysisError("expand_run_space: block loop variable not recognised")
+    in_bl = {id(x) for x in ast.walk(bl)}
+
+    # ---- provenance of a mapping inside the block loop: derived from block.context ('ctx'), from the
+    # ---- columns returned by _load_and_process_source ('src'), or anything else ('other')
+    def mutations_of(name: str) -> List[Tuple[ast.AST, Optional[ast.AST]]]:
+        out = []
+        for n in ast.walk(bl):
+            if isinstance(n, ast.Call) and isinstance(n.func, ast.Attribute) and isinstance(n.func.value, ast.Name) and n.func.value.id == name:
+                if n.func.attr == "update" and len(n.args) == 1 and not n.keywords:
+                    out.append((n, n.args[0]))
+                elif n.func.attr in ("setdefault", "pop", "popitem", "clear", "__setitem__", "add", "append", "extend", "update", "discard", "remove"):
+                    out.append((n, None))
+            if isinstance(n, ast.Subscript) and isinstance(n.ctx, (ast.Store, ast.Del)) and isinstance(n.value, ast.Name) and n.value.id == name:
+                out.append((n, None))
+        return out
+
+    def prov(e: ast.AST, at: ast.AST, depth: int = 0, with_mut: bool = True) -> FrozenSet[str]:
+        if depth > 8:
+            return frozenset({"other"})
+        e = strip_keyset(e)
+        if _u(e) == f"{block}.context":
+            return frozenset({"ctx"})
+        if is_empty_container(e) or (isinstance(e, ast.Constant) and e.value is None):
+            return frozenset()
+        if isinstance(e, COMPS) and len(e.generators) == 1:
+            return prov(e.generators[0].iter, at, depth + 1)
+        if isinstance(e, ast.Call) and call_attr(e) == LPS:
+            return frozenset({"src*"})
+        if isinstance(e, ast.Subscript) and isinstance(e.slice, ast.Constant):
+            p = prov(e.value, at, depth + 1)
+            if p == frozenset({"src*"}):
+                return frozenset({"src"}) if e.slice.value == 0 else frozenset({"meta"})
+            return frozenset({"other"})
+        if isinstance(e, ast.BinOp) and isinstance(e.op, ast.BitOr):
+            return prov(e.left, at, depth + 1) | prov(e.right, at, depth + 1)
+        if isinstance(e, ast.Call) and isinstance(e.func, ast.Attribute) and e.func.attr == "union" and len(e.args) == 1:
+            return prov(e.func.value, at, depth + 1) | prov(e.args[0], at, depth + 1)
+        if isinstance(e, ast.IfExp):
+            return prov(e.body, at, depth + 1) | prov(e.orelse, at, depth + 1)
+        if isinstance(e, ast.Dict) and e.keys and all(k is None for k in e.keys):
+            out: FrozenSet[str] = frozenset()
+            for v in e.values:
+                out |= prov(v, at, depth + 1)
+            return out
+        if isinstance(e, ast.Name):
+            ds = F.defs(e.id, at)
+            if not ds:
+                return frozenset({"other"})
+            out = frozenset()
+            for d in ds:
+                if d[0] == "val":
+                    out |= prov(d[1], d[2], depth + 1)
+                elif d[0] == "item":
+                    p = prov(d[1], d[3], depth + 1)
+                    if p == frozenset({"src*"}):
+                        out |= frozenset({"src"}) if d[2] == 0 else frozenset({"meta"})
+                    else:
+                        got = False
+                        for v, st in F.values(d[1], d[3]):
+                            if isinstance(v, ast.Tuple) and len(v.elts) > d[2]:
+                                out |= prov(v.elts[d[2]], st, depth + 1)
+                                got = True
+                        if not got:
+                            out |= frozenset({"other"})
+                elif d[0] == "aug" and isinstance(d[1].op, ast.BitOr):
+                    out |= prov(d[1].value, d[1], depth + 1)
+                else:
+                    out |= frozenset({"other"})
+            if with_mut:
+                for site, arg in mutations_of(e.id):
+                    out |= prov(arg, site, depth + 1) if arg is not None else frozenset({"other"})
+            return out
+        return frozenset({"other"})
+
+    CTX, SRC = frozenset({"ctx"}), frozenset({"src"})
+    exp_calls = [c for c in ast.walk(fn) if isinstance(c, ast.Call) and call_attr(c) == EE]
+    ctx_exp: List[ast.Call] = []
+    src_exp: List[ast.Call] = []
+    unknown_exp = []
+    for c in exp_calls:
+        a0 = call_arg(c, 0, ee_params[0])
+        p = prov(a0, c) if a0 is not None and id(c) in in_bl else frozenset({"other"})
+        if p == CTX:
+            ctx_exp.append(c)
+        elif p == SRC:
+            src_exp.append(c)
+        elif p and p <= (CTX | SRC):
+            R.violation(r_ord, RS, ERS, "each expansion takes the context mapping or the source mapping", "a mapping mixing inline context and source columns is expanded as one: source columns are sorted in among the inline keys instead of varying fastest", c.lineno)
+        else:
+            unknown_exp.append(c)
+    if (unknown_exp or not ctx_exp or not src_exp) and not R.violations():
+        raise AnalysisError("expand_run_space: per-block context/source entry mappings not recognised")
+
+    def runs_side(e: ast.AST, at: ast.AST) -> FrozenSet[str]:
+        """Which side's expansion (ctx / src) the run list *e* holds."""
+        out = set()
+        for v, _s in F.values(e, at):
+            for x in ast.walk(v):
+                if any(x is c for c in ctx_exp):
+                    out.add("ctx")
+                elif any(x is c for c in src_exp):
+                    out.add("src")
+        return frozenset(out)
+
+    MODES = ("by_position", "combinatorial")
+
+    def not_mode_atom(m: str):
+        """Atom "the block's mode is not *m*"."""
+        def consts(e: ast.AST) -> Optional[List[object]]:
+            if isinstance(e, (ast.Tuple, ast.List, ast.Set)) and all(isinstance(x, ast.Constant) for x in e.elts):
+                return [x.value for x in e.elts]
+            return None
+
+        def atom(e: ast.AST) -> Optional[bool]:
+            if not (isinstance(e, ast.Compare) and len(e.ops) == 1):
+                return None
+            l, op, r = e.left, e.ops[0], e.comparators[0]
+            if isinstance(l, ast.Constant) and isinstance(op, (ast.Eq, ast.NotEq)):
+                l, r = r, l
+            if _u(l) != f"{block}.mode":
+                return None
+            if isinstance(op, (ast.Eq, ast.NotEq)) and isinstance(r, ast.Constant):
+                same = r.value == m
+                if isinstance(op, ast.Eq):
+                    return False if same else True
+                return True if same else False  # `mode != other` false => mode == other => not m
+            if isinstance(op, (ast.In, ast.NotIn)) and consts(r) is not None:
+                inside = m in consts(r)
+                if isinstance(op, ast.In):
+                    return False if inside else True
+                return True if inside else False
+            return None
+        return atom
+
+    def block_mode_of(node: ast.AST) -> Optional[str]:
+        """The one mode the block can have where *node* runs (decided from the branches that lead there)."""
+        possible = []
+        for m in MODES:
+            edges = []
+            for n in F.g.nodes:
+                if n.kind == "if" and n.part is not None:
+                    edges.extend((n.id, e) for e in F.edges(n.part, not_mode_atom(m)))
+            if not F.dominated([F.nid(node)], edges)[0]:
+                possible.append(m)
+        return possible[0] if len(possible) == 1 else None
+
+    # context outer / source inner
+    pairs: List[Tuple[ast.AST, ast.AST, ast.AST]] = []  # (site, outer iterable, inner iterable)
+    its = [(cons, it) for cons, it, _t, _b in iterations(bl)]
+    for cons, it in its:
+        for cons2, it2 in its:
+            if cons is cons2:
+                if isinstance(cons, COMPS):
+                    gens = [g.iter for g in cons.generators]
+                    if any(g is it for g in gens) and any(g is it2 for g in gens) and [i for i, g in enumerate(gens) if g is it][0] < [i for i, g in enumerate(gens) if g is it2][0]:
+                        pairs.append((cons, it, it2))
+            elif any(a is cons for a in ancestors(cons2)) and not (isinstance(cons, COMPS) and not isinstance(cons2, ast.For) and False):
+                pairs.append((cons, it, it2))
+    for c in ast.walk(bl):
+        if is_product(c) and len(c.args) == 2 and not any(isinstance(a, ast.Starred) for a in c.args):
+            pairs.append((c, c.args[0], c.args[1]))
+    cs: List[Tuple[ast.AST, bool]] = []
+    for site, o, i in pairs:
+        so, si = runs_side(o, site), runs_side(i, site)
+        if so and si and (so | si) == (CTX | SRC) and len(so) == 1 and len(si) == 1:
+            cs.append((site, so == CTX and si == SRC))
+    ok = len(cs) >= 1 and all(good for _s, good in cs)
+    bad_site = next((s for s, good in cs if not good), None)
+    R.check(ok, r_ord, RS, ERS, "block combination: context outer, source inner", "inside a combinatorial block the source no longer varies fastest (or context/source are not combined pairwise)", (bad_site or (cs[0][0] if cs else fn)).lineno)
     # index-aligned combine over all blocks
     ok = False
-    for n in ast.walk(fn):
-        if isinstance(n, ast.For) and match("range(_T_)", n.iter) and isinstance(n.target, ast.Name) and not any(a is bl for a in ancestors(n)):
-            inner = [m for m in ast.walk(n) if isinstance(m, (ast.For, ast.comprehension)) and dotted_name(m.iter) == ALL]
-            if inner and f"[{n.target.id}]" in _u(n):
+    for cons, it, tgt, body in iterations(fn):
+        if id(cons) in in_bl:
+            continue
+        if match("range(_T_)", it) and isinstance(tgt, ast.Name):
+            inner = [1 for c2, it2, t2, b2 in iterations(cons) if dotted_name(it2) == ALL and isinstance(t2, ast.Name) and (found(b2, f"{t2.id}[{tgt.id}]") or (c2 is cons and found(body, f"{t2.id}[{tgt.id}]")))]
+            if inner or found(body, f"_r_[{tgt.id}]") and ALL in {n for b in body for n in names_in(b)}:
                 ok = True
-        if isinstance(n, ast.ListComp) and not any(a is bl for a in ancestors(n)) and match("range(_T_)", n.generators[0].iter) and ALL in names_in(n.elt):
+        if ALL and match(f"zip(*{ALL})", it):
             ok = True
     R.check(ok, r_ord, RS, ERS, "combine=by_position: merge runs[idx] of every block for idx in range(total)", "combine=by_position does not merge aligned positions of all blocks", fn.lineno)
 
     # ------------------------------------------------------------------ D2 guards
     r_g = R.rule("C08-D2-rejection-guards", "duplicate keys (within a block, across blocks, after rename), missing selected columns and mismatched lengths (key, context-vs-source, block level) are each tested by a guard that raises the configuration error and dominates the merge it protects; the neutral [{}] stands in only for an absent side", 9)
 
-    def mismatch_var(test: ast.AST) -> Optional[str]:
-        """`len(set(X)) > 1` / `!= 1` (possibly and-ed with X) -> X."""
-        for t in ([test] + (list(test.values) if isinstance(test, ast.BoolOp) and isinstance(test.op, ast.And) else [])):
-            m = match("len(set(_X_)) > 1", t) or match("len(set(_X_)) != 1", t)
-            if m and isinstance(m["_X_"], ast.Name):
-                if isinstance(test, ast.BoolOp) and not all(match("len(set(_X_)) > 1", v) or match("len(set(_X_)) != 1", v) or dotted_name(v) == m["_X_"].id for v in test.values):
-                    return None
-                return m["_X_"].id
-        return None
-
-    def mismatch_guards(f: ast.AST) -> List[Tuple[ast.If, str]]:
+    def lens_collections(flow: Flow, e: ast.AST, at: ast.AST) -> Optional[List[ast.AST]]:
+        """*e* is a collection of len()s: the comprehension(s) / map(len, ..) it stands for, else None."""
         out = []
-        for n in ast.walk(f):
-            if isinstance(n, ast.If):
-                v = mismatch_var(n.test)
-                if v and _raises(n.body) in CONFIG_ERRORS:
-                    out.append((n, v))
-        return out
-
-    mg_ee = mismatch_guards(ee)
-    ok = False
-    for gnode, v in mg_ee:
-        if any(match(f"[len({entries}[_k_]) for _k_ in _K_]", d) for d in assigned_value(ee, v)):
-            ok = True
-    R.check(ok, r_g, RS, "_expand_entries", "by_position: unequal list lengths raise", "the equal-length guard of positional expansion is missing or no longer raises the configuration error", ee.lineno)
-    mg_fn = mismatch_guards(fn)
-    in_block = [g for g in mg_fn if bl is not None and any(a is bl for a in ancestors(g[0]))]
-    after = [g for g in mg_fn if g not in in_block]
-    ok_b = any(all(isinstance(d, ast.ListComp) and "len(" in _u(d.elt) for d in assigned_value(fn, v)) for _g, v in in_block)
-    ok_a = any(any(match(f"[len(_r_) for _r_ in {ALL}]", d) for d in assigned_value(fn, v)) for _g, v in after)
-    R.check(ok_b, r_g, RS, ERS, "block: context vs source run counts must match", "the context-vs-source size guard of a by_position block is missing or no longer raises", fn.lineno)
-    R.check(ok_a, r_g, RS, ERS, "combine=by_position: block sizes must match", "the block-size guard of combine=by_position is missing or no longer raises", fn.lineno)
-    # duplicate keys
-    dup_ifs = []
-    for n in ast.walk(fn):
-        if isinstance(n, ast.If) and isinstance(n.test, ast.Name) and _raises(n.body) in CONFIG_ERRORS:
-            for d in reaching_values(fn, n.test.id, n):
-                if isinstance(d, ast.Call) and call_attr(d) == "intersection":
-                    dup_ifs.append((n, d))
-    within = [d for _n, d in dup_ifs if {ctx_entries, src_entries} <= names_in(d)]
-    seen_name = None
-    across = []
-    for _n, d in dup_ifs:
-        if d in within:
-            continue
-        recv = d.func.value
-        if isinstance(recv, ast.Name):
-            across.append(d)
-            seen_name = recv.id
-    R.check(len(within) >= 1, r_g, RS, ERS, "duplicate keys within a block (context ∩ source) raise", "a key present both inline and in the block's source is no longer rejected", fn.lineno)
-    ok = len(across) >= 1 and seen_name is not None
-    if ok:
-        cur = across[0].args[0] if across[0].args else None
-        cur_defs = defs_of(fn, cur)
-        ok = any({ctx_entries, src_entries} <= names_in(v) for v in cur_defs) and bool(find(fn, f"{seen_name}.update(_C_)", nested=True))
-    R.check(ok, r_g, RS, ERS, "duplicate keys across blocks (seen ∩ current) raise; seen.update(current)", "a key declared in two blocks is no longer rejected (or keys are not all remembered)", fn.lineno)
-    # rename collision / select missing
-    ok = any(isinstance(n, ast.If) and match("_T_ in _R_", n.test) and _raises(n.body) in CONFIG_ERRORS and bool(find(ls, f"{_u(match('_T_ in _R_', n.test)['_R_'])}[{_u(match('_T_ in _R_', n.test)['_T_'])}] = _V_", nested=True)) for n in ast.walk(ls))
-    R.check(ok, r_g, RS, "_load_and_process_source", "rename collision: target already present raises", "two columns renamed onto the same key (or onto an existing one) are no longer rejected", ls.lineno)
-    ok = False
-    for n in ast.walk(ls):
-        if isinstance(n, ast.If) and isinstance(n.test, ast.Name) and _raises(n.body) in CONFIG_ERRORS:
-            if any(call_attr(c) == "append" and dotted_name(c.func.value) == n.test.id for c in calls_in(ls)):
-                ok = True
-    R.check(ok, r_g, RS, "_load_and_process_source", "select: missing columns raise", "selecting a column the source does not have is no longer rejected", ls.lineno)
-    # the rename collision test covers every column (no early skip before it)
-    for lp in [n for n in ast.walk(ls) if isinstance(n, ast.For) and "items()" in _u(n.iter)]:
-        coll = [n for n in ast.walk(lp) if isinstance(n, ast.If) and match("_T_ in _R_", n.test) and _raises(n.body) in CONFIG_ERRORS]
-        if coll:
-            early = [x for x in ast.walk(lp) if isinstance(x, ast.Continue)]
-            R.check(not early, r_g, RS, "_load_and_process_source", "every column passes the collision test", "some columns skip the rename-collision test (a rename onto an un-renamed column is accepted and silently drops data)", lp.lineno)
-    # guard dominance of the positional expansion
-    g1 = CFG(ee, may_raise=lambda p: set())
-    lens_vars = {v for _g, v in mg_ee}
-    targets = [n.id for n in g1.nodes if n.ast is not None and n.kind == "stmt" and any(isinstance(x, (ast.ListComp, ast.DictComp)) and f"range(" in _u(x) and "][" in _u(x) for x in ast.walk(n.ast))]
-    holds, path, guards_n = returns_only_through(g1, lambda e: (False if mismatch_var(e) in lens_vars and mismatch_var(e) else None), targets=targets)
-    R.check(holds and guards_n > 0 and bool(targets), r_g, RS, "_expand_entries", "equal-length test dominates the positional expansion", "positions are aligned without the equal-length test having passed", ee.lineno, path)
-    # neutral element only for an absent side
-    neutral_bad = []
-    neutral_ok = 0
-    for n in ast.walk(fn):
-        is_neutral = lambda v: isinstance(v, ast.List) and len(v.elts) == 1 and isinstance(v.elts[0], ast.Dict) and not v.elts[0].keys
-        if isinstance(n, ast.BoolOp) and isinstance(n.op, ast.Or) and any(is_neutral(v) for v in n.values):
-            if any(isinstance(v, ast.Call) and call_attr(v) == "_expand_entries" for v in n.values):
-                neutral_bad.append(n)
-        if isinstance(n, ast.IfExp) and (is_neutral(n.orelse) or is_neutral(n.body)):
-            exp_side = n.body if is_neutral(n.orelse) else n.orelse
-            ent = exp_side.args[0] if isinstance(exp_side, ast.Call) and exp_side.args else None
-            test_name = dotted_name(n.test) if is_neutral(n.orelse) else (dotted_name(n.test.operand) if isinstance(n.test, ast.UnaryOp) and isinstance(n.test.op, ast.Not) else None)
-            if test_name is not None and test_name == dotted_name(ent) and test_name in (ctx_entries, src_entries):
-                neutral_ok += 1
+        for v, _s in flow.values(e, at):
+            while isinstance(v, ast.Call) and isinstance(v.func, ast.Name) and v.func.id in ("list", "tuple", "set", "sorted", "frozenset") and len(v.args) == 1 and not v.keywords:
+                v = v.args[0]
+            if isinstance(v, (ast.ListComp, ast.SetComp, ast.GeneratorExp)) and match("len(_e_)", v.elt):
+                out.append(v)
+            elif match("map(len, _X_)", v):
+                out.append(v)
             else:
-                neutral_bad.append(n)
-    # statement form: if entries: runs = expand(...) else: runs = [{}]
-    for n in ast.walk(fn):
-        if isinstance(n, ast.If) and dotted_name(n.test) in (ctx_entries, src_entries) and n.orelse:
-            if any(isinstance(s, ast.Assign) and isinstance(s.value, ast.List) and _u(s.value) == "[{}]" for s in n.orelse):
-                neutral_ok += 1
-    for b in neutral_bad:
-        R.violation(r_g, RS, ERS, "neutral [{}] replaces an empty expansion", "the neutral run [{}] replaces an *empty expansion* (e.g. a key with an empty value list) instead of an *absent* side: runs appear that lack declared keys and empty blocks no longer yield zero runs", b.lineno)
-    if not neutral_bad:
-        R.check(neutral_ok == 2, r_g, RS, ERS, "[{}] only when the entries mapping is empty (context, source)", "neutral element selection not recognised", fn.lineno)
+                return None
+        return out or None
 
-    # ------------------------------------------------------------------ D3 cap before materialisation
-    r_cap = R.rule("C08-D3-cap-before-materialisation", "every statement that materialises something of product size is dominated by a test `size > spec.max_runs` (size computed from len()s only, directly or in a helper that raises) whose failing branch raises RunSpaceMaxRunsExceededError", 4)
-    g = CFG(fn, may_raise=lambda p: set())
-    materialised = {dotted_name(r.value.elts[0]) for r in walk_no_nested(fn) if isinstance(r, ast.Return) and isinstance(r.value, ast.Tuple) and r.value.elts} | {BR}
-
-    def size_ok(f: ast.AST, left: ast.AST) -> bool:
-        for v in defs_of(f, left):
-            if any(isinstance(c, ast.Call) and call_attr(c) == "len" and dotted_name(c.args[0]) in materialised for c in ast.walk(v)):
-                return False
-        return True
-
-    def cap_atom_in(f: ast.AST, cap_expr: str):
+    def equal_atom(flow: Flow, accept: Callable[[List[ast.AST], ast.AST], bool]):
+        """Atom "all the lengths are equal (vacuously so when there are none)"."""
         def atom(e: ast.AST) -> Optional[bool]:
-            m = match(f"_S_ > {cap_expr}", e)
-            if m and size_ok(f, m["_S_"]):
-                return False  # the test is the negation of "within cap"
-            m = match(f"_S_ <= {cap_expr}", e)
-            if m and size_ok(f, m["_S_"]):
-                return True
+            at = stmt_of(e)
+            cc = count_cmp(e)
+            if cc and cc[1] in ("many", "atmost1"):
+                cols: Optional[List[ast.AST]] = []
+                for s, st in flow.values(cc[0], at):
+                    if isinstance(s, ast.Call) and isinstance(s.func, ast.Name) and s.func.id in ("set", "frozenset") and len(s.args) == 1:
+                        c = lens_collections(flow, s.args[0], st)
+                    elif isinstance(s, ast.SetComp):
+                        c = lens_collections(flow, s, st)
+                    else:
+                        c = None
+                    if c is None:
+                        cols = None
+                        break
+                    cols.extend(c)
+                if cols and accept(cols, at):
+                    return cc[1] == "atmost1"
+            p = cmp_parts(e)
+            if p and p[1] in (ast.Eq, ast.NotEq):
+                l, op, r = p
+                ml, mr = match("min(_X_)", l) or match("max(_X_)", l), match("max(_X_)", r) or match("min(_X_)", r)
+                if ml and mr and _u(ml["_X_"]) == _u(mr["_X_"]) and _u(l) != _u(r):
+                    c = lens_collections(flow, ml["_X_"], at)
+                    if c and accept(c, at):
+                        return op is ast.Eq
+                if match("len(_A_)", l) and match("len(_B_)", r) and accept([l, r], at):
+                    return op is ast.Eq
+            for pat, pol in (("any((_a_ != _X_[0] for _a_ in _X_))", False), ("all((_a_ == _X_[0] for _a_ in _X_))", True)):
+                m = match(pat, e)
+                if m:
+                    c = lens_collections(flow, m["_X_"], at)
+                    if c and accept(c, at):
+                        return pol
+            if isinstance(e, ast.Name):
+                c = lens_collections(flow, e, at)
+                if c and accept(c, at):
+                    return False  # no lengths at all => nothing differs
             return None
         return atom
 
-    cap_atom = cap_atom_in(fn, f"{spec}.max_runs")
-    cap_ifs = [n for n in g.nodes if n.kind == "if" and n.part is not None and edges_guaranteeing(n.part, cap_atom)]
+    # key level: lengths of entries[k] over the keys
+    def reads_entries(c: ast.AST, at: ast.AST) -> bool:
+        """the lengths in *c* are those of the value lists of the entries mapping (directly or via a local)"""
+        if entries in names_in(c):
+            return True
+        return any(entries in names_in(v) for x in ast.walk(c) if isinstance(x, ast.Name) and isinstance(x.ctx, ast.Load) for v, _s in FE.values(x, at) if v is not x)
+
+    at_ee = equal_atom(FE, lambda cols, at: all(reads_entries(c, at) for c in cols))
+    g_ee = FE.rejecting(at_ee)
+    R.check(bool(g_ee), r_g, RS, EE, "by_position: unequal list lengths raise", "the equal-length guard of positional expansion is missing or no longer raises the configuration error", ee.lineno)
+
+    def reads_runs(cols: List[ast.AST], at: ast.AST) -> bool:
+        """the lengths are those of the block's context / source run lists"""
+        for c in cols:
+            if match("len(_A_)", c):
+                if not runs_side(c.args[0], at):
+                    return False
+                continue
+            if id(c) not in in_bl:
+                return False
+        return True
+
+    at_blk = equal_atom(F, lambda cols, at: id(at) in in_bl and reads_runs(cols, at))
+    at_all = equal_atom(F, lambda cols, at: id(at) not in in_bl and all(ALL in names_in(c) for c in cols))
+    g_blk = [(n, e) for n, e in F.rejecting(at_blk)]
+    g_all = [(n, e) for n, e in F.rejecting(at_all)]
+    R.check(bool(g_blk), r_g, RS, ERS, "block: context vs source run counts must match", "the context-vs-source size guard of a by_position block is missing or no longer raises", fn.lineno)
+    R.check(bool(g_all), r_g, RS, ERS, "combine=by_position: block sizes must match", "the block-size guard of combine=by_position is missing or no longer raises", fn.lineno)
+
+    # duplicate keys
+    def overlap_operands(flow: Flow, e: ast.AST, at: ast.AST) -> List[Tuple[ast.AST, ast.AST, ast.AST]]:
+        """(A, B, statement) when *e* stands for the keys common to A and B."""
+        out = []
+        for v, st in flow.values(e, at):
+            while isinstance(v, ast.Call) and isinstance(v.func, ast.Name) and v.func.id in ("list", "tuple", "set", "sorted", "frozenset") and len(v.args) == 1 and not v.keywords:
+                v = v.args[0]
+            if isinstance(v, ast.Call) and isinstance(v.func, ast.Attribute) and v.func.attr == "intersection" and len(v.args) == 1:
+                out.append((v.func.value, v.args[0], st))
+            elif isinstance(v, ast.BinOp) and isinstance(v.op, ast.BitAnd):
+                out.append((v.left, v.right, st))
+            elif isinstance(v, (ast.ListComp, ast.SetComp, ast.GeneratorExp)) and len(v.generators) == 1 and len(v.generators[0].ifs) == 1 and isinstance(v.generators[0].target, ast.Name) and _u(v.elt) == v.generators[0].target.id:
+                m = match(f"{v.generators[0].target.id} in _B_", v.generators[0].ifs[0])
+                if not m:
+                    return []
+                out.append((v.generators[0].iter, m["_B_"], st))
+            else:
+                return []
+        return out
+
+    def disjoint_atom(accept: Callable[[ast.AST, ast.AST, ast.AST], bool]):
+        def atom(e: ast.AST) -> Optional[bool]:
+            at = stmt_of(e)
+            if isinstance(e, ast.Call) and isinstance(e.func, ast.Attribute) and e.func.attr == "isdisjoint" and len(e.args) == 1:
+                return True if accept(e.func.value, e.args[0], at) else None
+            cc = count_cmp(e)
+            subject, pol = (cc[0], cc[1] == "none") if cc and cc[1] in ("some", "none") else (e, False)
+            if subject is e and isinstance(e, ast.Call) and isinstance(e.func, ast.Name) and e.func.id == "bool" and len(e.args) == 1:
+                subject = e.args[0]
+            if not isinstance(subject, (ast.Name, ast.Call, ast.BinOp, ast.ListComp, ast.SetComp)):
+                return None
+            ops = overlap_operands(F, subject, at)
+            if ops and all(accept(a, b, st) for a, b, st in ops):
+                return pol
+            return None
+        return atom
+
+    def is_within(a: ast.AST, b: ast.AST, at: ast.AST) -> bool:
+        return {prov(a, at), prov(b, at)} == {CTX, SRC}
+
+    def accumulator(e: ast.AST) -> Optional[List[Tuple[ast.AST, ast.AST]]]:
+        """*e* names a set created empty before the block loop and only grown inside it: the growth sites."""
+        e = strip_keyset(e)
+        if not isinstance(e, ast.Name):
+            return None
+        plain = [n for n in walk_no_nested(fn) if isinstance(n, (ast.Assign, ast.AnnAssign)) and any(isinstance(t, ast.Name) and t.id == e.id for t in (n.targets if isinstance(n, ast.Assign) else [n.target]))]
+        grow: List[Tuple[ast.AST, ast.AST]] = []
+        for n in ast.walk(bl):
+            if isinstance(n, ast.Call) and isinstance(n.func, ast.Attribute) and n.func.attr == "update" and dotted_name(n.func.value) == e.id and len(n.args) == 1:
+                grow.append((n, n.args[0]))
+            if isinstance(n, ast.AugAssign) and isinstance(n.op, ast.BitOr) and dotted_name(n.target) == e.id:
+                grow.append((n, n.value))
+        inside = [n for n in plain if id(n) in in_bl]
+        for n in inside:
+            m = match(f"{e.id} = {e.id} | _X_", n) or match(f"{e.id} = {e.id}.union(_X_)", n)
+            if not m:
+                return None
+            grow.append((n, m["_X_"]))
+        outside = [n for n in plain if id(n) not in in_bl]
+        if not outside or not all(n.value is not None and is_empty_container(n.value) for n in outside):
+            return None
+        return grow or None
+
+    def is_across(a: ast.AST, b: ast.AST, at: ast.AST) -> bool:
+        for seen, cur in ((a, b), (b, a)):
+            grow = accumulator(seen)
+            if grow and accumulator(cur) is None and prov(cur, at) == (CTX | SRC) and all(prov(x, site) == (CTX | SRC) for site, x in grow):
+                return True
+        return False
+
+    g_within = [(n, e) for n, e in F.rejecting(disjoint_atom(is_within)) if F.g.nodes[n].ast is not None and id(F.g.nodes[n].ast) in in_bl]
+    g_across = [(n, e) for n, e in F.rejecting(disjoint_atom(is_across)) if F.g.nodes[n].ast is not None and id(F.g.nodes[n].ast) in in_bl]
+    R.check(bool(g_within), r_g, RS, ERS, "duplicate keys within a block (context ∩ source) raise", "a key present both inline and in the block's source is no longer rejected", fn.lineno)
+    R.check(bool(g_across), r_g, RS, ERS, "duplicate keys across blocks (seen ∩ current) raise; seen.update(current)", "a key declared in two blocks is no longer rejected (or keys are not all remembered)", fn.lineno)
+
+    # rename collision: every store into the renamed mapping is preceded by `target not in renamed`
+    src_p = ls_params[0]
+    rename_stores: List[Tuple[ast.For, ast.Assign, str, ast.AST]] = []  # (loop, store, mapping name, key expr)
+    for lp in [n for n in walk_no_nested(ls) if isinstance(n, ast.For)]:
+        stores = [n for n in ast.walk(lp) if isinstance(n, ast.Assign) and len(n.targets) == 1 and isinstance(n.targets[0], ast.Subscript) and isinstance(n.targets[0].value, ast.Name)]
+        renamed_maps = {s.targets[0].value.id for s in stores if any(f"{src_p}.rename" in _u(v) for v, _st in FL.values(s.targets[0].slice, s))}
+        for s in stores:
+            if s.targets[0].value.id in renamed_maps:
+                rename_stores.append((lp, s, s.targets[0].value.id, s.targets[0].slice))
+
+    def free_atom(mapping: str, key: ast.AST, at_store: ast.AST):
+        keys = {_u(key)} | {_u(v) for v, _s in FL.values(key, at_store)}
+        def atom(e: ast.AST) -> Optional[bool]:
+            p = e if isinstance(e, ast.Compare) and len(e.ops) == 1 else None
+            if p is None or not isinstance(p.ops[0], (ast.In, ast.NotIn)):
+                return None
+            if _u(strip_keyset(p.comparators[0])) != mapping:
+                return None
+            tested = {_u(p.left)} | {_u(v) for v, _s in FL.values(p.left, stmt_of(e))}
+            if not (tested & keys):
+                return None
+            return isinstance(p.ops[0], ast.NotIn)
+        return atom
+
+    any_guard = False
+    unguarded: List[ast.AST] = []
+    for lp, s, mapping, key in rename_stores:
+        gs = FL.rejecting(free_atom(mapping, key, s))
+        if gs:
+            any_guard = True
+        if not gs or not FL.dominated([FL.nid(s)], gs)[0]:
+            unguarded.append(s)
+    R.check(any_guard, r_g, RS, LPS, "rename collision: target already present raises", "two columns renamed onto the same key (or onto an existing one) are no longer rejected", ls.lineno)
+    if any_guard:
+        R.check(not unguarded, r_g, RS, LPS, "every column passes the collision test", "some columns skip the rename-collision test (a rename onto an un-renamed column is accepted and silently drops data)", unguarded[0].lineno if unguarded else rename_stores[0][0].lineno)
+
+    # select: every selected key that is not a column is rejected
+    select = f"{src_p}.select"
+
+    def is_columns(e: ast.AST, at: ast.AST, depth: int = 0) -> bool:
+        """*e* holds (the names of) the columns as loaded from the source file."""
+        vals = FL.values(strip_keyset(e), at)
+        if not vals or depth > 4:
+            return False
+        for v, st in vals:
+            v = strip_keyset(v)
+            if isinstance(v, ast.Call) and call_attr(v) == LSF:
+                continue
+            if isinstance(v, ast.Name) and (v is not e) and FL.defs(v.id, st) and is_columns(v, st, depth + 1):
+                continue
+            return False
+        return True
+
+    def is_select(e: ast.AST) -> bool:
+        return _u(strip_keyset(e)) == select
+
+    def member_pol(test: ast.AST, var: str, at: ast.AST) -> Optional[bool]:
+        """`var in <columns>` -> True, `var not in <columns>` -> False."""
+        if isinstance(test, ast.Compare) and len(test.ops) == 1 and isinstance(test.ops[0], (ast.In, ast.NotIn)) and _u(test.left) == var and is_columns(test.comparators[0], at):
+            return isinstance(test.ops[0], ast.In)
+        return None
+
+    def missing_collection(e: ast.AST, at: ast.AST) -> bool:
+        """*e* stands for exactly the selected keys that are not columns."""
+        vals = FL.values(e, at)
+        if not vals:
+            return False
+        for v, st in vals:
+            while isinstance(v, ast.Call) and isinstance(v.func, ast.Name) and v.func.id in ("list", "tuple", "set", "sorted", "frozenset") and len(v.args) == 1 and not v.keywords:
+                v = v.args[0]
+            good = False
+            if isinstance(v, (ast.ListComp, ast.SetComp, ast.GeneratorExp)) and len(v.generators) == 1 and isinstance(v.generators[0].target, ast.Name):
+                gen = v.generators[0]
+                good = is_select(gen.iter) and _u(v.elt) == gen.target.id and len(gen.ifs) == 1 and edges_guaranteeing(gen.ifs[0], lambda t: member_pol(t, gen.target.id, st)) == {"F"}
+            elif isinstance(v, ast.BinOp) and isinstance(v.op, ast.Sub):
+                good = is_select(v.left) and is_columns(v.right, st)
+            elif isinstance(v, ast.Call) and isinstance(v.func, ast.Attribute) and v.func.attr == "difference" and len(v.args) == 1:
+                good = is_select(v.func.value) and is_columns(v.args[0], st)
+            elif is_empty_container(v) and isinstance(e, ast.Name):
+                good = grown_with_missing(e.id)
+            if not good:
+                return False
+        return True
+
+    def grown_with_missing(acc: str) -> bool:
+        """Every selected key that is not a column is appended to *acc* (and nothing else is)."""
+        adds = [n for n in ast.walk(ls) if isinstance(n, ast.Call) and isinstance(n.func, ast.Attribute) and n.func.attr in ("append", "add") and dotted_name(n.func.value) == acc and len(n.args) == 1]
+        if not adds:
+            return False
+        for a in adds:
+            loop = next((x for x in ancestors(a) if isinstance(x, ast.For)), None)
+            if loop is None or not is_select(loop.iter) or not isinstance(loop.target, ast.Name) or _u(a.args[0]) != loop.target.id:
+                return False
+            var = loop.target.id
+            present_edges = []
+            for n in FL.g.nodes:
+                if n.kind == "if" and n.part is not None and any(x is loop for x in ancestors(n.ast)):
+                    present_edges.extend((n.id, e) for e in FL.edges(n.part, lambda t: member_pol(t, var, n.ast)))
+            loop_id = FL.nid(loop)
+            body_entry = [t for t, lab in FL.g.succ[loop_id] if lab == "T"]
+            seen = FL.g.reach(body_entry, blocked={FL.nid(a)}, blocked_edges=set(present_edges))
+            if loop_id in seen or FL.g.ret_exit in seen:
+                return False  # an absent key can get round the append
+        return True
+
+    def all_present_atom(e: ast.AST) -> Optional[bool]:
+        at = stmt_of(e)
+        # any(k not in columns for k in select) / all(k in columns for k in select)
+        if isinstance(e, ast.Call) and isinstance(e.func, ast.Name) and e.func.id in ("any", "all") and len(e.args) == 1 and isinstance(e.args[0], (ast.GeneratorExp, ast.ListComp)):
+            c = e.args[0]
+            if len(c.generators) == 1 and not c.generators[0].ifs and isinstance(c.generators[0].target, ast.Name) and is_select(c.generators[0].iter):
+                var = c.generators[0].target.id
+                eg = edges_guaranteeing(c.elt, lambda t: member_pol(t, var, at))
+                if e.func.id == "all" and eg == {"T"}:
+                    return True
+                if e.func.id == "any" and eg == {"F"}:
+                    return False
+            return None
+        # set(select) <= set(columns) / .issubset
+        p = cmp_parts(e)
+        if p and p[1] is ast.LtE and is_select(p[0]) and is_columns(p[2], at):
+            return True
+        if isinstance(e, ast.Call) and isinstance(e.func, ast.Attribute) and e.func.attr == "issubset" and len(e.args) == 1 and is_select(e.func.value) and is_columns(e.args[0], at):
+            return True
+        # per key, inside a loop over the selection: k in columns
+        if isinstance(e, ast.Compare):
+            loop = next((x for x in ancestors(e) if isinstance(x, ast.For)), None)
+            if loop is not None and is_select(loop.iter) and isinstance(loop.target, ast.Name):
+                r = member_pol(e, loop.target.id, at)
+                if r is not None:
+                    return r
+        # truthiness / size of the collection of missing keys
+        cc = count_cmp(e)
+        subject, pol = (cc[0], cc[1] == "none") if cc and cc[1] in ("some", "none") else (e, False)
+        if isinstance(subject, (ast.Name, ast.BinOp, ast.ListComp, ast.SetComp)) or (isinstance(subject, ast.Call) and isinstance(subject.func, (ast.Name, ast.Attribute)) and call_attr(subject) in ("list", "set", "sorted", "tuple", "difference")):
+            if missing_collection(subject, at):
+                return pol
+        return None
+
+    g_sel = FL.rejecting(all_present_atom)
+    ok = bool(g_sel)
+    path: List[str] = []
+    if ok:
+        # a per-key guard inside the selection loop has to be met by every key
+        for nid, _e in g_sel:
+            gnode = FL.g.nodes[nid].ast
+            loop = next((x for x in ancestors(gnode) if isinstance(x, ast.For) and is_select(x.iter)), None)
+            if loop is not None:
+                lid = FL.nid(loop)
+                seen = FL.g.reach([t for t, lab in FL.g.succ[lid] if lab == "T"], blocked={nid})
+                if lid in seen:
+                    ok = False
+        users = [FL.nid(cons) for cons, it, _t, _b in iterations(ls) if is_select(it)]
+        good, path = FL.passes_only_through(users, g_sel)
+        ok = ok and good and bool(users)
+    R.check(ok, r_g, RS, LPS, "select: missing columns raise", "selecting a column the source does not have is no longer rejected", ls.lineno, path)
+
+    # guard dominance of the positional expansion
+    site_ids = [FE.nid(s) for s in positional_sites]
+    holds, path = FE.dominated(site_ids, g_ee) if g_ee else (False, [])
+    R.check(holds and bool(site_ids), r_g, RS, EE, "equal-length test dominates the positional expansion", "positions are aligned without the equal-length test having passed", ee.lineno, path)
+
+    # neutral element only for an absent side
+    def empty_atom(side: FrozenSet[str]):
+        """Atom "the <side> entries mapping is empty"."""
+        def atom(e: ast.AST) -> Optional[bool]:
+            at = stmt_of(e)
+            cc = count_cmp(e)
+            if cc and cc[1] in ("some", "none"):
+                return (cc[1] == "none") if prov(cc[0], at) == side else None
+            if isinstance(e, ast.Name) and prov(e, at) == side:
+                return False
+            return None
+        return atom
+
+    def side_of_expansion(v: ast.AST) -> Optional[FrozenSet[str]]:
+        if isinstance(v, ast.Call) and any(v is c for c in ctx_exp):
+            return CTX
+        if isinstance(v, ast.Call) and any(v is c for c in src_exp):
+            return SRC
+        return None
+
+    neutral_bad: List[ast.AST] = []
+    neutral_ok = 0
+    for n in ast.walk(fn):
+        if isinstance(n, ast.BoolOp) and isinstance(n.op, ast.Or) and any(is_neutral(v) for v in n.values):
+            neutral_bad.append(n)
+        elif isinstance(n, ast.IfExp) and (is_neutral(n.orelse) or is_neutral(n.body)):
+            other = n.body if is_neutral(n.orelse) else n.orelse
+            side = side_of_expansion(other)
+            need = "F" if is_neutral(n.orelse) else "T"
+            if side is not None and need in edges_guaranteeing(n.test, empty_atom(side)):
+                neutral_ok += 1
+            else:
+                neutral_bad.append(n)
+        elif isinstance(n, (ast.Assign, ast.AnnAssign)) and is_neutral(n.value) and id(n) in in_bl:
+            tgt = n.targets[0] if isinstance(n, ast.Assign) else n.target
+            if not isinstance(tgt, ast.Name):
+                neutral_bad.append(n)
+                continue
+            # the other definitions of the same run list tell which side it stands for
+            sides = {side_of_expansion(x) for m in ast.walk(bl) if isinstance(m, (ast.Assign, ast.AnnAssign)) and m is not n and any(isinstance(t, ast.Name) and t.id == tgt.id for t in (m.targets if isinstance(m, ast.Assign) else [m.target])) and m.value is not None for x in ast.walk(m.value)} - {None}
+            if len(sides) != 1:
+                neutral_bad.append(n)
+                continue
+            side = next(iter(sides))
+            edges = []
+            for c in F.g.nodes:
+                if c.kind == "if" and c.part is not None:
+                    edges.extend((c.id, e) for e in F.edges(c.part, empty_atom(side)))
+            me = F.nid(n)
+            redefs = {F.nid(m) for m in ast.walk(bl) if isinstance(m, (ast.Assign, ast.AnnAssign)) and m is not n and any(isinstance(t, ast.Name) and t.id == tgt.id for t in (m.targets if isinstance(m, ast.Assign) else [m.target]))}
+            uses = [F.nid(x) for x in ast.walk(bl) if isinstance(x, ast.Name) and x.id == tgt.id and isinstance(x.ctx, ast.Load)]
+            dominated = F.dominated([me], edges)[0] if edges else False
+            if not dominated:
+                onward = F.g.reach([me], blocked=redefs, blocked_edges=set(edges))
+                dominated = bool(edges) and not any(u in onward for u in uses if u != me)
+            if dominated:
+                neutral_ok += 1
+            else:
+                neutral_bad.append(n)
+    for b in neutral_bad:
+        R.violation(r_g, RS, ERS, "neutral [{}] replaces an empty expansion", "the neutral run [{}] replaces an *empty expansion* (e.g. a key with an empty value list) instead of an *absent* side: runs appear that lack declared keys and empty blocks no longer yield zero runs", b.lineno)
+    if not neutral_bad:
+        R.check(neutral_ok >= 2, r_g, RS, ERS, "[{}] only when the entries mapping is empty (context, source)", "neutral element selection not recognised", fn.lineno)
+
+    # ------------------------------------------------------------------ D3 cap before materialisation
+    r_cap = R.rule("C08-D3-cap-before-materialisation", "every statement that materialises something of product size is dominated by a test `size > spec.max_runs` (size computed from len()s only, directly or in a helper that raises) whose failing branch raises RunSpaceMaxRunsExceededError", 4)
+    g = F.g
+    materialised = {dotted_name(r.value.elts[0]) for r in walk_no_nested(fn) if isinstance(r, ast.Return) and isinstance(r.value, ast.Tuple) and r.value.elts} | {BR}
+    cap_expr = f"{spec}.max_runs"
+
+    def size_ok(f: ast.AST, left: ast.AST) -> bool:
+        vals = assigned_value(f, left.id) if isinstance(left, ast.Name) else []
+        for v in (vals or [left]):
+            if any(isinstance(c, ast.Call) and call_attr(c) == "len" and c.args and dotted_name(c.args[0]) in materialised for c in ast.walk(v)):
+                return False
+        return True
+
+    def cap_cmp(e: ast.AST, cap: str) -> Optional[Tuple[bool, ast.AST]]:
+        """(within cap?, projected size expression) for one comparison against the cap."""
+        if not (isinstance(e, ast.Compare) and len(e.ops) == 1):
+            return None
+        l, op, r = e.left, type(e.ops[0]), e.comparators[0]
+        if _u(l) == cap:
+            flip = {ast.Lt: ast.Gt, ast.Gt: ast.Lt, ast.LtE: ast.GtE, ast.GtE: ast.LtE}
+            if op not in flip:
+                return None
+            l, op, r = r, flip[op], l
+        if _u(r) != cap:
+            return None
+        if op is ast.Gt:
+            return False, l
+        if op is ast.LtE:
+            return True, l
+        return None
+
+    def cap_atom_in(f: ast.AST, cap: str):
+        def atom(e: ast.AST) -> Optional[bool]:
+            c = cap_cmp(e, cap)
+            if c and size_ok(f, c[1]):
+                return c[0]
+            return None
+        return atom
+
+    cap_atom = cap_atom_in(fn, cap_expr)
     n_cap = 0
-    for n in cap_ifs:
-        exc = _raises(n.ast.body)
+    blocked = set()
+    for nid, ok_e, other, rs in F.guards(cap_atom):
+        n = g.nodes[nid]
         n_cap += 1
-        R.check(exc == "RunSpaceMaxRunsExceededError", r_cap, RS, ERS, "cap test raises the max-runs error", f"exceeding the cap raises {exc} instead of the max-runs error", n.line)
-        if exc:
-            rc = n.ast.body[-1].exc
-            m = match(f"_S_ > {spec}.max_runs", n.part)
-            ok = isinstance(rc, ast.Call) and m is not None and _u(kwarg(rc, "actual_runs")) == _u(m["_S_"]) and _u(kwarg(rc, "max_runs")) == f"{spec}.max_runs"
+        blocked.add((nid, ok_e))
+        exc = ", ".join(sorted(rs)) if rs else None
+        R.check(rs == {CAP_ERROR}, r_cap, RS, ERS, "cap test raises the max-runs error", f"exceeding the cap raises {exc} instead of the max-runs error", n.line)
+        if rs:
+            size = next((cap_cmp(x, cap_expr)[1] for x in ast.walk(n.part) if cap_cmp(x, cap_expr)), None)
+            ok = True
+            for rz in F.raise_nodes(nid, other):
+                rc = rz.exc
+                if isinstance(rc, ast.Name):
+                    vs = [v for v, _s in F.values(rc, rz)]
+                    rc = vs[0] if len(vs) == 1 else rc
+                ok = ok and isinstance(rc, ast.Call) and _u(call_arg(rc, 0, "actual_runs")) == _u(size) and _u(call_arg(rc, 1, "max_runs")) == cap_expr
             R.check(ok, r_cap, RS, ERS, "max-runs error carries projected size and limit", "the max-runs error does not carry the projected size and the limit", n.line)
-    # helper functions that raise unless within cap: _helper(size, spec)
+    # helper functions (not inlined: public name) that raise unless within cap: helper(size, spec)
     helper_calls = []
-    for hqn, hf in [(q, n) for q, n in mod.defs.items() if isinstance(n, FuncNode) and "." not in q and n is not fn]:
+    for hqn, hf in [(q, n) for q, n in mod.defs.items() if isinstance(n, FuncNode) and "." not in q and n.name != ERS]:
         params = [a.arg for a in hf.args.args]
         for n in walk_no_nested(hf):
-            if isinstance(n, ast.If) and _raises(n.body) == "RunSpaceMaxRunsExceededError":
+            if isinstance(n, ast.If) and _raises(n.body) == CAP_ERROR:
                 m = match("_S_ > _C_", n.test)
-                if m and isinstance(m["_S_"], ast.Name) and m["_S_"].id in params and "max_runs" in _u(m["_C_"]) and hf.body.index(n) <= 1:
+                if m and isinstance(m["_S_"], ast.Name) and m["_S_"].id in params and "max_runs" in _u(m["_C_"]) and n in hf.body and hf.body.index(n) <= 1:
                     helper_calls.append((hf.name, params.index(m["_S_"].id)))
-    blocked = set()
-    for n in cap_ifs:
-        for e in edges_guaranteeing(n.part, cap_atom):
-            blocked.add((n.id, e))
     for n in g.nodes:
         if n.ast is not None and n.kind == "stmt":
             for c in calls_in(n.ast):
@@ -363,63 +1114,75 @@ def run(repo: Repo, R: Report) -> None:
     seen = g.reach([g.entry], blocked_edges=blocked)
     # materialisation sites by role
     sites: List[Tuple[str, ast.AST]] = []
-    for c, _t in ctx_exp:
-        mode = const_of(c.args[1], consts)
-        if mode != "by_position":
+    for c in ctx_exp:
+        a1 = call_arg(c, 1, ee_params[1])
+        if not (isinstance(a1, ast.Constant) and a1.value == "by_position"):
             sites.append((f"block expansion: context side ({block_mode_of(c) or '?'} block)", stmt_of(c)))
-    for c, _t in src_exp:
-        mode = const_of(c.args[1], consts)
-        if mode != "by_position":
+    for c in src_exp:
+        a1 = call_arg(c, 1, ee_params[1])
+        if not (isinstance(a1, ast.Constant) and a1.value == "by_position"):
             sites.append((f"block expansion: source side ({block_mode_of(c) or '?'} block)", stmt_of(c)))
-    for n, a, b in cs:
-        sites.append(("block combination: context x source", n if isinstance(n, ast.stmt) else stmt_of(n)))
+    for s, _good in cs:
+        sites.append(("block combination: context x source", s if isinstance(s, ast.stmt) else stmt_of(s)))
     for c in top:
         sites.append(("top-level combination: product of all blocks", stmt_of(c)))
     if len(sites) < 4 and not R.violations():
         raise AnalysisError(f"expand_run_space: only {len(sites)} product-materialisation site(s) recognised")
+    done = set()
     for label, s in sites:
-        ids = g.nodes_for(s)
-        if not ids:
-            # comprehension inside an assignment etc.: use the enclosing statement
-            ids = g.nodes_for(stmt_of(s))
-        if not ids:
+        if (label, id(s)) in done:
             continue
-        unguarded = ids[0] in seen
-        R.check(not unguarded, r_cap, RS, ERS, label, "a structure of product size is built before (or without) the max_runs test: a specification far larger than the cap is fully materialised first", s.lineno, g.path_to(seen, ids[0])[-6:] if unguarded else None)
+        done.add((label, id(s)))
+        sid = F.nid(s)
+        unguarded_site = sid in seen
+        R.check(not unguarded_site, r_cap, RS, ERS, label, "a structure of product size is built before (or without) the max_runs test: a specification far larger than the cap is fully materialised first", s.lineno, g.path_to(seen, sid)[-6:] if unguarded_site else None)
     if n_cap == 0:
         R.violation(r_cap, RS, ERS, "cap test", "no `size > spec.max_runs` test on a projected size exists", fn.lineno)
     # the size used for the product is the product of all block sizes
     ok = False
+    for cons, it, tgt, body in iterations(fn):
+        if dotted_name(it) == ALL and isinstance(tgt, ast.Name) and id(cons) not in in_bl:
+            for b in body:
+                for n in ast.walk(b):
+                    if isinstance(n, ast.AugAssign) and isinstance(n.op, ast.Mult) and match(f"len({tgt.id})", n.value):
+                        ok = True
+                    if isinstance(n, ast.Assign) and len(n.targets) == 1 and isinstance(n.targets[0], ast.Name) and (match(f"{n.targets[0].id} * len({tgt.id})", n.value) or match(f"len({tgt.id}) * {n.targets[0].id}", n.value)):
+                        ok = True
     for n in ast.walk(fn):
-        if isinstance(n, ast.AugAssign) and isinstance(n.op, ast.Mult) and match("len(_r_)", n.value) and any(isinstance(a, ast.For) and dotted_name(a.iter) == ALL for a in ancestors(n)):
-            ok = True
         if isinstance(n, ast.Call) and call_name(n) in ("math.prod", "prod") and ALL in names_in(n):
+            ok = True
+        if isinstance(n, ast.Call) and call_name(n) in ("functools.reduce", "reduce") and n.args and _last(dotted_name(n.args[0])) == "mul" and ALL in names_in(n):
             ok = True
     R.check(ok or n_cap == 0, r_cap, RS, ERS, "projected size = product of len(runs) over all blocks", "the projected size is not the product of all block sizes", fn.lineno)
 
     # ------------------------------------------------------------------ D4 error classes
     r_err = R.rule("C08-D4-error-classes", "expansion raises only the documented configuration error and max-runs error", 5)
+    allowed = set(CONFIG_ERRORS) | {CAP_ERROR}
     for f in [n for q, n in mod.defs.items() if isinstance(n, FuncNode) and "." not in q and n.name != "_coerce_scalar"]:
         for n in walk_no_nested(f):
             if isinstance(n, ast.Raise) and n.exc is not None:
                 t = n.exc.func if isinstance(n.exc, ast.Call) else n.exc
-                R.check(dotted_name(t) in ("ConfigurationError", "RunSpaceMaxRunsExceededError"), r_err, RS, f.name, f"raise {dotted_name(t)}", "an undocumented exception class is raised for an invalid run space", n.lineno)
+                names = {_last(dotted_name(t))}
+                if isinstance(t, ast.Name) and not isinstance(n.exc, ast.Call):
+                    vals = assigned_value(f, t.id)
+                    if vals and all(isinstance(v, ast.Call) for v in vals):
+                        names = {_last(dotted_name(v.func)) for v in vals}
+                    elif any(isinstance(h, ast.ExceptHandler) and h.name == t.id for h in ancestors(n)):
+                        continue  # re-raise of the caught exception
+                shown = "/".join(sorted(x or "?" for x in names))
+                R.check(names <= allowed, r_err, RS, f.name, f"raise {shown}", "an undocumented exception class is raised for an invalid run space", n.lineno)
     # the cap value itself comes from the configuration unchanged
-    from ..engine import Repo as _R  # noqa: F401
-    lp = repo.maybe_func("semantiva/configurations/load_pipeline_from_yaml.py", "_parse_run_space_block")
-    if lp is not None:
+    YL = "semantiva/configurations/load_pipeline_from_yaml.py"
+    if repo.maybe_func(YL, "_parse_run_space_block") is not None:
+        lp = nfunc(repo, YL, "_parse_run_space_block", copyprop="all")
         r_cfg = R.rule("C08-D3-cap-value", "the max_runs value of the block is taken as given (an explicit 0 is not replaced by the default)", 1)
-        bad = [n for n in ast.walk(lp) if isinstance(n, ast.BoolOp) and isinstance(n.op, ast.Or) and "max_runs" in _u(n.values[0])]
-        gets = [c for c in ast.walk(lp) if isinstance(c, ast.Call) and call_attr(c) == "get" and c.args and isinstance(c.args[0], ast.Constant) and c.args[0].value == "max_runs"]
-        R.check(bool(gets) and not bad, r_cfg, "semantiva/configurations/load_pipeline_from_yaml.py", "_parse_run_space_block", "max_runs = block.get('max_runs', <default>)", "a falsy max_runs (0) is replaced by the default: a cap of 0 no longer rejects anything", lp.lineno)
 
+        def reads_cap(e: ast.AST) -> bool:
+            if isinstance(e, ast.Call) and call_attr(e) == "get" and e.args and isinstance(e.args[0], ast.Constant) and e.args[0].value == "max_runs":
+                return True
+            return isinstance(e, ast.Subscript) and isinstance(e.slice, ast.Constant) and e.slice.value == "max_runs"
 
-def reaching_values(fn: ast.AST, name: str, at: ast.AST) -> List[ast.AST]:
-    """Right-hand sides of the assignments to *name* that textually precede *at* (nearest first) in the
-    same or an enclosing block; falls back to all assignments."""
-    vals = []
-    for n in ast.walk(fn):
-        if isinstance(n, ast.Assign) and any(isinstance(t, ast.Name) and t.id == name for t in n.targets) and n.lineno <= getattr(at, "lineno", 0):
-            vals.append(n)
-    vals.sort(key=lambda n: -n.lineno)
-    return [vals[0].value] if vals else assigned_value(fn, name)
+        gets = [c for c in ast.walk(lp) if reads_cap(c)]
+        bad = [n for n in ast.walk(lp) if isinstance(n, ast.BoolOp) and isinstance(n.op, ast.Or) and any(reads_cap(x) for x in ast.walk(n.values[0]))]
+        bad += [n for n in ast.walk(lp) if isinstance(n, ast.IfExp) and any(reads_cap(x) for x in ast.walk(n.test)) and not any(isinstance(x, ast.Compare) for x in ast.walk(n.test))]
+        R.check(bool(gets) and not bad, r_cfg, YL, "_parse_run_space_block", "max_runs = block.get('max_runs', <default>)", "a falsy max_runs (0) is replaced by the default: a cap of 0 no longer rejects anything", lp.lineno)
